@@ -12,4 +12,10 @@ def obligations(tier):
     L.append(ob("flags/v1v2", "internal/jsonflags", "VerifC19V1V2", [], second="cvc5", covers=["end"]))
     for k, nested in ([(1, True), (2, False)] if q else [(1, True), (2, True), (3, False)]):
         L.append(ob("join/k=%d/nested=%d" % (k, nested), "internal/jsonopts", "VerifC19Join", [k, nested], covers=["end"], max_seconds=1200))
+    T = ['{"a":?,"b":7}', '{"a":"?","c":tru?}', '{"?":1}'] if q else ['{"a":?,"b":7}', '{"a":"?","c":?}', '{"?":1}', '{"a":"5","b":??}', '{"b":1,"a":t?ue}', '[?]']
+    for i, t in enumerate(T):
+        for wo in (False, True):
+            L.append(ob("scope/unmarshal/t%d/callopt=%d" % (i, wo), ".", "VerifC19Scope", [t, wo, False], covers=["first-error"], max_seconds=600))
+    for wo in (False, True):
+        L.append(ob("scope/marshal/callopt=%d" % wo, ".", "VerifC19Scope", ["", wo, True], covers=["first-call"], max_seconds=600))
     return L
